@@ -39,7 +39,8 @@ ThreePointCentre(a, b, c) == Vtx(Plane(VScale(2, VSub(b, a)), N2(b) - N2(a)), Pl
                                  PlaneOfNP(Cross(VSub(b, a), VSub(c, a)), a))
 FourPointCentre(a, b, c, d) == Vtx(Plane(VScale(2, VSub(b, a)), N2(b) - N2(a)), Plane(VScale(2, VSub(c, a)), N2(c) - N2(a)),
                                    Plane(VScale(2, VSub(d, a)), N2(d) - N2(a)))
-FracEq(f, g) == f[1] * g[2] = g[1] * f[2]
+\* equality of two non-negative fractions without overflow (big-natural products, VGeom.CmpProd)
+FracEq(f, g) == CmpProd(f[1], g[2], g[1], f[2]) = 0
 \* Sphere::extend for a sphere with integer centre c and integer radius r and a point x at INTEGER distance d > r
 \* (axis-aligned or Pythagorean offsets): new radius (r + d) / 2, new centre x + (c - x) (r + d) / (2 d)
 ExtendCentre(c, r, x, d) == HNorm(<<2 * d * x[1] + (c[1] - x[1]) * (r + d), 2 * d * x[2] + (c[2] - x[2]) * (r + d),
